@@ -1383,7 +1383,7 @@ impl MutableArchive {
         let index_size = header.index_size;
 
         // Create hash table and file indices arrays
-        let mut het_hash_table = vec![0xFFu8; hash_table_entries as usize];
+        let mut het_hash_table = vec![0u8; hash_table_entries as usize]; // 0x00 = free slot
         let file_indices_size = (header.total_index_size as usize).div_ceil(8);
         let mut file_indices = vec![0u8; file_indices_size];
 
@@ -1407,7 +1407,7 @@ impl MutableArchive {
                 // Linear probing for collision resolution
                 let mut current_index = start_index;
                 loop {
-                    if het_hash_table[current_index] == 0xFF {
+                    if het_hash_table[current_index] == 0 {
                         het_hash_table[current_index] = name_hash1;
                         self.write_bit_entry(
                             &mut file_indices,
